@@ -54,6 +54,14 @@ CHECKS['C07'] = dict(level='exploration', engine='statesearch',
    technique='exhaustive enumeration of all ordered pairs of element sets over a 6-id forced-collision universe x parameter grid x both diff variants x build histories x transports (in process, head-sync wire adapter, key-value wire adapter with real protobuf round trips), set-theoretic reference; round counter for termination',
    text='All 3^6 x 3^6 ordered pairs of element sets over ids whose hashes share 36- and 51-bit prefixes are diffed by the real ldiff (Diff and CompareDiff) for a grid of (divideFactor, threshold), with indexes built fresh / by update / by insert-then-remove, in process and through both wire adapters; new / changed / their-changed / removed must equal the set-theoretic reference, each id once, within a bounded number of range rounds; plus fixed large cases up to 50k ids.',
    note='quick uses the sub-grid recorded in the evidence bounds; ids limited to the 6-id universe (plus fixed large deterministic cases); xxhash / blake3 trusted', ref='5 C07')
+CHECKS['C09'] = dict(level='model_checking', engine='statesearch',
+   technique='explicit-state BFS over two-replica histories (distributed, canonical-state dedup); for every reachable ordered (responder, requester) pair x requester-heads variant x batch limit the real loader output is judged against set/ancestry reference and replayed into the real requester',
+   text='From every state two real sync-tree replicas can reach by edits / snapshots / flushing or losing the network (history length <= 5 quick / 7 thorough) every ordered pair is asked for a full sync with the requester heads + path, an empty request, unknown heads and partly known heads, for every batch limit from 1 byte over every partial sum of change sizes (+-1) to 10 MiB; completeness, no duplicates, parents-before-children, size bound, announced heads (sent or held, maximal, covering the batch) are judged, the batches are applied in order by the real requester, and the real HandleStreamRequest must send the same changes.',
+   note='in-memory storage implementation (see C01); requester taken to lack exactly what its storage lacks', ref='5 C09')
+CHECKS['C05'] = dict(level='model_checking', engine='statesearch',
+   technique='explicit-state BFS over membership histories built with the real record builders (real key material), abstract-state dedup; per step every account view is rebuilt from the raw log and an independent attacker-closure over all encrypted-key blobs is computed; crafted rotations; real encrypted tree content per key generation',
+   text='All histories (depth 4/3/3 quick, 6/5/4 thorough from three seed histories) over join-by-request, open-invite join, direct add, removal with rotation, leave request, invite revoke with rotation, stand-alone rotation, re-add and re-join are produced with each actor building its record from its own validating view; after every step every pool account rebuilds its view from the raw log: members must hold every read-key generation (equal to the owner view), non-members must not be able to derive - by their own private key or any invite key they held, closed under the old-key chain - any generation introduced since they lost access; rotation recipients are compared with the reference; encrypted tree content is written / read / scanned in storage under each generation.',
+   note='read keys only (not metadata keys); generations exposed by a still-live open invite are excused by design; trees mostly over in-memory storage, scripted histories on real any-store', ref='5 C05')
 NOT_YET = 'check not built yet (work in progress, see DESIGN.md section 10)'
 m = {
  'version': 1,
